@@ -550,6 +550,10 @@ func checkC14(c *Ctx) {
 	eng := c.newLockEngine()
 	c.checkFieldDiscipline("O4 field-discipline", []string{"m3", "internal/cache"}, eng, 12)
 	c.checkLockPairing("O4 lock-pairing", []string{"m3", "internal/cache", "m3/thriftudp"}, eng, 4)
+	// "completes without deadlock": no lock of a class is taken while one of the same class is held (a
+	// read lock re-acquired under a read lock deadlocks as soon as a writer queues in between), and the
+	// lock classes are acquired in one order (shared with C09 O3)
+	c.checkLockOrder("O4 lock-order", []string{"m3", "internal/cache", "m3/thriftudp"}, eng)
 
 	// ---- O5 index guards ----------------------------------------------------------------------------
 	c.checkM3SearchGuards("O5 index-guard")
@@ -581,6 +585,21 @@ func (c *Ctx) checkM3Goroutines(rule string, fWg, fMetCh, fDoneCh *types.Var) {
 	adds := findInstrs(ctor, isWg("Add"))
 	c.floor(rule, len(gos), 2)
 	okAll := true
+	// goroutines are started in the constructor only (where Close's WaitGroup accounts for them): a
+	// goroutine started per call anywhere else in the reporter or its transports (a helper that enqueues
+	// "later", a concurrent fan-out that returns on the first answer) is not waited for by Close and can
+	// outlive it, or send on the closed queue
+	for _, pk := range []string{"m3", "m3/thriftudp", "m3/customtransports", "internal/cache"} {
+		for _, f := range c.funcsOfPkg(pk) {
+			if f == ctor || f.Parent() == ctor {
+				continue
+			}
+			for _, g := range findInstrs(f, func(in ssa.Instruction) bool { _, ok := in.(*ssa.Go); return ok }) {
+				okAll = false
+				c.bad(rule, c.fnKey(f)+":go", g.Pos(), "a goroutine is started outside the reporter's constructor: Close's WaitGroup does not account for it - it can be left running (or blocked for ever) after Close has returned", c.describe(g))
+			}
+		}
+	}
 	if len(adds) != len(gos) {
 		okAll = false
 		c.bad(rule, key, ctor.Pos(), fmt.Sprintf("the constructor starts %d goroutines but calls wg.Add %d times", len(gos), len(adds)))
